@@ -134,7 +134,7 @@ CHECKS['C19'] = {
 }
 
 CHECKS['C17'] = {
-    'text': 'Music.tla: the exact denominator of the MUSIC pseudo-spectrum for noiseless sums of K < P <= 4 exponentials on the 4-point grid (noise projector I - S^H (S S^H)^-1 S by exact Gaussian elimination; TLC checks that it vanishes exactly at the tone bins, is positive and at most P elsewhere and sums to 4(P-K)), replayed into eigen(music) and pmusic at NFFT 4, 8, 12 and three record lengths. EigenArgs.tla: (1) the argument-validation decision table - NSIG / threshold / AIC-MDL rule mutually exclusive, 0 <= NSIG < P, method in {music, ev} - every combination enumerated by TLC and replayed into eigen, music, ev, pmusic, pev (accept / reject, an explicit NSIG makes the criterion irrelevant); (2) the forward-backward data matrix of order P as an index map (TLC checks index ranges and the Toeplitz / Hankel structure), applied by the harness to integer data and its singular values compared with the returned ones. ObsC17.tla validates, on noiseless sums of K on-grid exponentials (or K/2 real sinusoids) with subspace dimension K, K < P <= 16, N in 2P..128, several NFFT incl. odd: the K largest local maxima within one bin of the truth on the reported axis, positivity everywhere, singular values = those of the data matrix, non-increasing, exactly K non-negligible.',
+    'text': 'Music.tla: the exact denominator of the MUSIC pseudo-spectrum for noiseless sums of K < P <= 4 exponentials on the 4-point grid (noise projector I - S^H (S S^H)^-1 S by exact Gaussian elimination; TLC checks that it vanishes exactly at the tone bins, is positive and at most P elsewhere and sums to 4(P-K)), replayed into eigen(music) and pmusic at NFFT 4, 8, 12 and three record lengths (the four denominators compared after normalising by their largest member: C17 pins peaks and positivity, not the normalisation). EigenArgs.tla: (1) the argument-validation decision table - NSIG / threshold / AIC-MDL rule mutually exclusive, 0 <= NSIG < P, method in {music, ev} - every combination enumerated by TLC and replayed into eigen, music, ev, pmusic, pev (accept / reject, an explicit NSIG makes the criterion irrelevant); (2) the forward-backward data matrix of order P as an index map (TLC checks index ranges and the Toeplitz / Hankel structure), applied by the harness to integer data and its singular values compared with the returned ones. ObsC17.tla validates, on noiseless sums of K on-grid exponentials (or K/2 real sinusoids) with subspace dimension K, K < P <= 16, N in 2P..128, several NFFT incl. odd: the K largest local maxima within one bin of the truth on the reported axis, positivity everywhere, singular values = those of the data matrix, non-increasing, exactly K non-negligible.',
     'design_ref': 'DESIGN.md 3/C17',
     'note': 'Exact part: MUSIC only (EV divides by the vanishing noise singular values of noiseless data), 4-point grid, P <= 4. The peak clause and the singular-value clause at realistic sizes are decided from observation events (numpy SVD of the matrix rebuilt by the harness).',
     'technique': 'TLA+ exact null-spectrum model + decision table + index-map model enumerated by TLC and replayed; TLC-validated observation events',
